@@ -117,6 +117,17 @@ GROUPS += [
       functions=["lib/scheme/bytevector.stub(generated):%s" % a[2] for a in ACC]),
 ]
 
+from groups import C01 as c01
+JS = {"label": "proved", "harness": "harness/C19/json.c", "flags": ["-I@BUILD@/shim_small", "-DVERIF_KINDFOLD=1"], "link_src": ["harness/vm/stubs.c"],
+      "units": [{"repo": "sexp.c", "remove_bodies": c01.SEXP_STUBBED + ["sexp_c_string"]}], "unwind": 16, "min_obligations": 4, "timeout": 300, "mem_gb": 4,
+      "havoc_keep": ["json_read_string", "decode_useq", "digit_value", "verif_isxdigit", "verif_isdigit", "verif_tolower", "verif_isspace", "verif_registered", "verif_pointerp", "verif_fixnump", "verif_is_imm", "sexp_c_string", "sexp_utf8_encode_char", "sexp_utf8_char_byte_count", "run", "expect_cp", "hexval", "hexdigits", "verif_register"],
+      "bound": "none for the escape under test (the string holds exactly one escape sequence and the closing quote; loops run a fixed number of times); all escape letters / hex digits symbolic",
+      "assumptions": ["sexp_c_string is a recording stub (the bytes handed over are the contract)", "every other callee (the exception constructor) returns an arbitrary value", "string port with the whole text in its buffer", "isxdigit etc. have their C-locale definitions (glibc's locale tables are not modelled by CBMC)"]}
+GROUPS += [
+ dict(JS, name="json_escape", entry="h_json_escape", functions=["lib/chibi/json.c:json_read_string(two-character escapes)"], instances=[{"name": "all"}]),
+ dict(JS, name="json_unicode", entry="h_json_unicode", functions=["lib/chibi/json.c:json_read_string(\\uXXXX)", "lib/chibi/json.c:decode_useq", "sexp.c:sexp_utf8_encode_char"], instances=[{"name": "bmp"}]),
+ dict(JS, name="json_surrogates", entry="h_json_surrogates", functions=["lib/chibi/json.c:json_read_string(surrogate pairs)", "lib/chibi/json.c:decode_useq", "sexp.c:sexp_utf8_encode_char"], instances=[{"name": "pairs"}]),
+]
 META = {
  "trusted_base": ["CBMC 6.11.0 front end, SAT back end, bit-precise IEEE-754 float model (round-to-nearest-even)"],
  "assumptions": ["quarter code 128 (-0.0) re-encodes as 0 (+0.0): numerically equal, excluded from the round-trip clause"],
